@@ -257,6 +257,14 @@ def build_item(repo, blk, cache):
         for m7 in re.finditer(r"\|\s*_\s*\|", text):
             add(T0 + m7.start(), m7.end() - m7.start(), "|_v|", "R7"); cnt7 += 1
         if cnt7: rewrites.append({"id": "R7", "from": "|_|", "to": "|_v|", "occurrences": cnt7})
+    # R5 (automatic form, purely syntactic): `std::cmp::min(` / `core::cmp::max(` / `cmp::min(` -> the prelude shim `min(` / `max(`
+    # (same meaning, prelude/core.rs.inc) wherever no explicit //@subst of the function already rewrites it, so that a NEW use of
+    # min / max in an extracted function does not stop the unit in the front end
+    if item.kind == "fn" and not any("cmp::m" in frm for _, frm, _ in blk.substs):
+        cnt5 = 0
+        for m5 in re.finditer(r"\b(?:(?:std|core)::)?cmp::(min|max)\s*\(", text):
+            add(T0 + m5.start(), m5.end() - m5.start(), m5.group(1) + "(", "R5"); cnt5 += 1
+        if cnt5: rewrites.append({"id": "R5", "from": "[std::]cmp::min|max(", "to": "min|max(", "occurrences": cnt5})
     if blk.orpat and item.kind == "fn":
         cnto = 0
         for mo in re.finditer(r"(?m)^([ \t]*)([A-Za-z_][A-Za-z0-9_:]*(?:\s*\|\s*[A-Za-z_][A-Za-z0-9_:]*)+)\s+if\s+", text):
